@@ -22,7 +22,7 @@ def setup_env():
     os.environ.setdefault("XLA_FLAGS", "--xla_force_host_platform_device_count=1 --xla_cpu_multi_thread_eigen=false intra_op_parallelism_threads=1")
     os.environ.setdefault("OMP_NUM_THREADS", "1")
     os.environ.setdefault("OPENBLAS_NUM_THREADS", "1")
-    for p in ("/repo", VERIF):
+    for p in (os.environ.get("VERIF_REPO", "/repo"), VERIF):  # VERIF_REPO: development only (a scratch copy while /repo is busy)
         if p not in sys.path:
             sys.path.insert(0, p)
     deps = os.path.join(VERIF, ".deps")
@@ -224,6 +224,13 @@ def finish(check_id, tier, seed, mod, results, wall):
     cov = {
         "obligations": nob,
         "discharged": ndis,
+        # model-checking keys: a "state" is one symbolic execution of the real code (one traced program at one bounded shape, or one
+        # explored path of plain Python code) standing for all inputs that follow it; a "transition" is one interpreted IR equation /
+        # explored branch decision; "traces validated" are the concrete executions of the REAL code that were compared with the
+        # interpreter's result (translator validation) in this run
+        "states": sum(max(1, int((r.get("paths") or {}).get("explored", 1)) if isinstance(r.get("paths"), dict) else max(1, int(r.get("paths") or 1))) for r in results),
+        "transitions": sum(int((r.get("traced") or {}).get("equations", 0) or 0) or len(r["obligations"]) for r in results),
+        "traces_validated_against_impl": sum(int((r.get("validation") or {}).get("instances", 0) or 0) for r in results),
         "evaluations": nob,
         "distinct_nontrivial": sum(1 for r in results for o in r["obligations"] if o.get("how") not in ("syntactic",)) if nob else 0,
         "rule": "one evaluation = one solver obligation (pre AND NOT post) built from the traced/path-explored real code at one "
